@@ -16,6 +16,8 @@ The trace is a list of integer lists [time, kind, ...]; nothing address- or repr
 import operator
 import warnings
 warnings.filterwarnings("ignore", category=RuntimeWarning)
+import sys as _sys
+_sys.unraisablehook = lambda *a, **k: None   # finalisation of abandoned coroutines after a run is noise
 import signal
 
 INF = float('inf')
